@@ -348,6 +348,14 @@ def check_frame(scn, op, df, n, a, model, order, rollups, include, exclude, coll
             bad = [i for i in range(n) if got[i] is not None and got[i] != want[i]]
             if bad:
                 V.append(violation(PROP, "e", "save", f"axis-{ax}-wrong", f"rows {bad[:5]}: {[got[i] for i in bad[:5]]} source {[want[i] for i in bad[:5]]}"))
+            # whichever result supplies the axis, it has it on the rows it evaluated: so at least on the rows
+            # that *every* collected result evaluated the column cannot be empty
+            common = set(range(n))
+            for k in order:
+                common &= set(model[k]["flags"])
+            gone = [i for i in sorted(common) if got[i] is None and want[i] is not None]
+            if order and gone and ax not in data_names:
+                V.append(violation(PROP, "e", "save", f"axis-{ax}-empty-on-evaluated-rows", f"rows {gone[:5]}"))
         elif op["write_axes"] and src is not None and order and n > 0 and any(len(model[k]["flags"]) for k in order):
             V.append(violation(PROP, "e", "save", f"axis-{ax}-missing", f"columns {cols}"))
     for sid in sorted(data_names):
@@ -363,6 +371,13 @@ def check_frame(scn, op, df, n, a, model, order, rollups, include, exclude, coll
             bad = [i for i in range(n) if got[i] is not None and got[i] != want[i]]
             if bad:
                 V.append(violation(PROP, "e", "save", "data-wrong", f"{sid} rows {bad[:5]}"))
+            # whichever kept result of this stream supplies the data column, it has the data on the rows it evaluated
+            common = set(range(n))
+            for k in kept:
+                common &= set(model[k]["flags"]) if k in model else set()
+            gone = [i for i in sorted(common) if got[i] is None and want[i] is not None]
+            if kept and gone:
+                V.append(violation(PROP, "e", "save", "data-empty-on-evaluated-rows", f"{sid} rows {gone[:5]}"))
         elif op["write_data"] and kept:
             V.append(violation(PROP, "e", "save", "data-missing", f"{sid}; columns {cols}"))
 
